@@ -38,7 +38,7 @@ def term_fn(label: str, counter: Optional[Counter] = None, fname: Optional[str] 
     """Plain callable whose result is the term f_<fname>(args..., kw values in name order)."""
     name = fname or label
 
-    def fn(*args: Any, **kwargs: Any) -> Any:
+    def fn(*args, **kwargs):  # type: ignore[no-untyped-def]  # (no annotations: tawazi inspects them)
         if counter is not None:
             counter.hit(label, args, kwargs)
         parts = [lift(a) for a in args]
